@@ -202,6 +202,17 @@ def hkl_cases(rng, covered, n):
     obl = [s for s in _settings() if s['cs'] in ('triclinic', 'monoclinic') or s['cell_choice'] == 'rhombohedral']
     obl_pick = [s for s in obl if s['no'] in (2, 166)] + rng.sample(obl, min(3, len(obl)))
     sets = sets + [s for s in obl_pick if s not in sets]
+    # one long axis (150..400 A, a layered compound or a protein) with a shell that reaches Miller indices of 100 and more: anything that
+    # packs or truncates indices works for |h| < 100 only
+    longable = [s for s in _settings() if s['cell_choice'] != 'rhombohedral' and s['cs'] != 'cubic']
+    for s in rng.sample(longable, 2):
+        c = gens.conforming_cell(rng, s['cs'], 'standard')
+        c = [min(c[0], 6.0), min(c[1], 6.0), rng.uniform(150.0, 400.0)] + list(c[3:])
+        if s['cs'] in ('tetragonal', 'hexagonal', 'trigonal'):
+            c[1] = c[0]
+        lmax = rng.uniform(100.5, 130.0)
+        out += hkl_one({'sgno': s['no'], 'cell_choice': 'standard', 'cell': c, 'sintlmin': 0.0, 'sintlmax': lmax / (2.0 * c[2]), 'long_axis': True},
+                       covered)
     for s in sets:
         cc = s['cell_choice'] if s['cell_choice'] == 'rhombohedral' else 'standard'
         c = gens.conforming_cell(rng, s['cs'], cc)
